@@ -131,7 +131,9 @@ ValidLex(T, s) ==
     [] T = "date"    -> IsDateLex(c)
     [] T = "boolean" -> IsBoolLex(c)
     [] T = "ilist"   -> \A i \in 1..Len(Toks(s)) : IsIntLex(Toks(s)[i])
-    [] T = "u"       -> TRUE                      \* the xs:string member accepts everything
+    [] T = "u"       -> Collapse(s) = s           \* the xs:string member accepts everything; lexicals with
+                                                  \* surrounding white space are outside the universe (XSD 1.0
+                                                  \* and 1.1 normalise them differently before the member test)
     [] T = "grp"     -> s = <<>>
 
 (* atomic values are tagged records with type-specific field names *)
